@@ -57,6 +57,17 @@ SCENARIOS = [
      [(1, (0, 1, 2, 3)), (1, (4, 5, 6, 7)), (0, (0, 8)), (0, (1, 9)), (0, (2, 10)), (0, (3, 11))]),
     ("blue-red-trees", "blue+red", 7,
      [(0, (0, 1)), (0, (1, 2)), (0, (3, 4)), (1, (1, 5)), (1, (4, 6)), (1, (2, 3))]),
+    # motifs with 4 corner edges, with corners of different sizes, odd cycles, cycles sharing two vertices, 3 topologies
+    ("two-5-cliques-one-decorated", "c2+c5", 15,
+     [(1, (0, 1, 2, 3, 4)), (1, (5, 6, 7, 8, 9)), (0, (0, 10)), (0, (1, 11)), (0, (2, 12)), (0, (3, 13)), (0, (4, 14))]),
+    ("two-diamonds-one-decorated", "c2+dia", 12,
+     [(1, (0, 1, 2, 3)), (1, (4, 5, 6, 7)), (0, (0, 8)), (0, (1, 9)), (0, (2, 10)), (0, (3, 11))]),
+    ("two-5-cycles-one-decorated", "c2+cyc5", 15,
+     [(1, (0, 1, 2, 3, 4)), (1, (5, 6, 7, 8, 9)), (0, (0, 10)), (0, (1, 11)), (0, (2, 12)), (0, (3, 13)), (0, (4, 14))]),
+    ("4-cycles-sharing-two-vertices+decorated-cycle", "c2+cyc4", 14,
+     [(1, (0, 1, 2, 3)), (1, (0, 4, 2, 5)), (1, (6, 7, 8, 9)), (0, (6, 10)), (0, (7, 11)), (0, (8, 12)), (0, (9, 13))]),
+    ("three-topologies", "c2+c3+red", 11,
+     [(1, (0, 1, 2)), (1, (3, 4, 5)), (0, (0, 6)), (0, (1, 7)), (2, (2, 8)), (2, (0, 9)), (0, (9, 10)), (2, (6, 7))]),
     ("three-triangles-two-decorated", "c2+c3", 12,
      [(1, (0, 1, 2)), (1, (3, 4, 5)), (1, (6, 7, 8)), (0, (0, 9)), (0, (1, 10)), (0, (2, 11)), (0, (3, 9)),
       (0, (4, 10)), (0, (5, 11))]),
@@ -170,7 +181,7 @@ def run_scenario(inst, tier):
         res.flags.add("scenario-closure>=2")
     if len(seen) >= 10:
         res.flags.add("closure>=10")
-    if any(k == 1 for k, _ in inst["placement"]) and len(seen) >= 2 and inst["tset"] in ("c2+c3", "c2+cyc4", "c2+c4"):
+    if any(k == 1 for k, _ in inst["placement"]) and len(seen) >= 2 and inst["tset"] != "blue+red":
         res.flags.add("multi-edge-motif-swapped")
     if all(p[1] == mcmc.KNOWN_CROSSED for p in problems) and tier == "thorough":
         r = mcmc.explore_step(state, state, mcmc.motif_shapes(state), names, target, 1)
